@@ -147,10 +147,12 @@ def structure(ctx):
         if generic:
             base["generics"] = [{"name": "T1", "concrete": "u32"}, {"name": "ParamT", "concrete": "String"}]
         chosen = subsets if (not ctx.quick or b < 2) else [s_ for i, s_ in enumerate(subsets) if i == 0 or i % 4 == b % 4]
+        # the same kind marked twice (with another one in between) is still just that kind
+        chosen = list(chosen) + [(k1, k2, k1) for k1, k2 in [tuple(rng.sample(kinds, 2)) for _ in range(ctx.pick(4, 12))]]
         for i, ov in enumerate(chosen):
             import copy
             q = copy.copy(base)
-            q["overrides"] = [{"kind": k, "fn": f"ov_{k}", "msg": "svmon::OvMsg"} for k in ov]
+            q["overrides"] = [{"kind": k, "fn": f"ov_{k}" + ("_again" if k in ov[:j] else ""), "msg": "svmon::OvMsg"} for j, k in enumerate(ov)]
             R = render.R(q)
             item = R.contract_item(True)
             attr = None
